@@ -520,7 +520,15 @@ def call_sequence(items, reuse_objects=None):
                 elif entry == 'oxigraph':
                     import re as _re
                     st = morph_kgc.materialize_oxigraph(it['config'], objs) if objs else morph_kgc.materialize_oxigraph(it['config'])
-                    res = set(_re.sub(r'_:[0-9a-f]{32}', '_:b', str(q)) for q in st)
+                    import pyoxigraph as _ox
+                    def _canon_term(t):
+                        # pyoxigraph gives every blank node a random identifier (29 to 32 hexadecimal digits: leading zeros are not printed): all become _:b
+                        if isinstance(t, _ox.BlankNode):
+                            return '_:b'
+                        if isinstance(t, _ox.Triple):
+                            return '<< %s %s %s >>' % (_canon_term(t.subject), _canon_term(t.predicate), _canon_term(t.object))
+                        return str(t)
+                    res = set(' '.join(_canon_term(t) for t in (q.subject, q.predicate, q.object, q.graph_name)) for q in st)
                 else:
                     res = morph_kgc.materialize_set(it['config'], objs) if objs else morph_kgc.materialize_set(it['config'])
                 r = {'lines': sorted(res, key=lambda x: str(x))}
